@@ -1,4 +1,4 @@
-from .common import RUN_WSHANDSHAKE_SMALL, LEAN_TB
+from .common import RUN_WSCONC_SMALL, RUN_WSHANDSHAKE_SMALL, LEAN_TB
 
 WS_TB = LEAN_TB + [
     "hand-written frame-level model lean/Sonic/Model/WsStream.lean of codec/websocket/stream.go (not translated): tied to "
@@ -29,8 +29,13 @@ PROP = {
             "component": "wsstream",
             "quick": {"gen": [(20000, 30)], "enum": [(4, 0), (3, 1), (3, 2), (4, 3)]},
             "thorough": {"gen": [(60000, 40)], "enum": [(5, 0), (4, 1), (5, 3)]},
-        }, RUN_WSHANDSHAKE_SMALL],  # a control reply queued for the previous connection must not open the next session
-        "keys": ["wsstream.*", "wshandshake.stale-session"],
+        }, RUN_WSHANDSHAKE_SMALL,  # a control reply queued for the previous connection must not open the next session
+            # the asynchronous API over a real transport with writes parked by the peer: AsyncClose completes once and only after its
+            # Close frame is out, and the read that waits behind a flush in flight starts when it completes (otherwise the peer's
+            # Close is never consumed and Pings go unanswered) — component of C17
+            RUN_WSCONC_SMALL],
+        "keys": ["wsstream.*", "wshandshake.stale-session", "wsconc.callback-never-invoked", "wsconc.callback-twice",
+                 "wsconc.wire-*"],
         # sessions with ValidateUTF8(true) (outside the model): the wire-level clauses of the closing handshake
         "direct": [{"component": "wsstream", "timeout": 600}],
         "rule": "scripts = a client Stream attached to a scripted transport (max message size from {0,1,2,8,16,64,125,126,130,300}) "
